@@ -492,10 +492,20 @@ StartTx(o) ==
 NewCommit(ps, e) ==
   /\ CanAct /\ Room(1)
   /\ Put(AddCommit(CurR, ps, FreshChg(CurR), IF e THEN 0 ELSE FreshDsc(CurR), e, <<>>), {}, NoAux)
+(* commits the transaction's index knows: everything its past operations saw *)
+(* or recorded, plus what it created itself                                  *)
+KnownCommits ==
+  LET RECURSIVE A(_)
+      A(S) == LET P == UNION {ToSet(ops[x].parents) : x \in S} IN IF P \subseteq S THEN S ELSE A(S \cup P)
+  IN tx.created \cup UNION {DOMAIN ops[o].preds \cup Visible(par, ops[o].view.heads) : o \in A(ToSet(tx.parents))}
+(* hidden commits (abandoned / rewritten away earlier) can be built upon:    *)
+(* `jj new <hidden commit>` makes them reachable again                       *)
+HiddenKnown == ((KnownCommits \ Vis) \ DOMAIN tx.M) \ {Root}
 NewCommitArgs ==
-  {<<p>> : p \in Vis} \cup
-  {pq \in {h \in NormalizeHeads(par, tx.view.heads) : h # Root}
-           \X {h \in NormalizeHeads(par, tx.view.heads) : h # Root} : pq[1] < pq[2]}
+  LET hs == {h \in NormalizeHeads(par, tx.view.heads) : h # Root} IN
+  {<<p>> : p \in Vis \cup HiddenKnown} \cup
+  {pq \in hs \X hs : pq[1] < pq[2]} \cup
+  {hq \in HiddenKnown \X hs : ~IsAncestor(par, hq[1], hq[2]) /\ ~IsAncestor(par, hq[2], hq[1])}
 
 (* rewrite_commit(x).set_description(fresh)[.set_parents(np)].write() *)
 RewriteCommit(x, np) ==
